@@ -205,7 +205,7 @@ var c15StoreCommands = map[string]bool{"ping": true, "auth": true, "select": tru
 	"del": true, "unlink": true, "keys": true, "scan": true, "set": true, "setnx": true, "setex": true, "psetex": true, "get": true, "append": true,
 	"incr": true, "decr": true, "incrby": true, "decrby": true, "mset": true, "expire": true, "pexpire": true, "expireat": true, "pexpireat": true,
 	"persist": true, "ttl": true, "pttl": true, "rename": true, "hset": true, "hmset": true, "hsetnx": true, "hget": true, "hmget": true, "hgetall": true,
-	"hlen": true, "hexists": true, "hdel": true, "hincrby": true, "script": true, "eval": true, "multi": true, "exec": true, "discard": true, "command": true}
+	"hlen": true, "hexists": true, "hdel": true, "hincrby": true, "script": true, "eval": true, "evalsha": true, "multi": true, "exec": true, "discard": true, "command": true}
 
 func c15StrictStore(srv *redisd.Server) {
 	srv.Extra = func(s *redisd.Server, cs *redisd.ConnState, argv [][]byte) []byte {
